@@ -207,6 +207,7 @@ func runC04(c *Ctx) {
 	c04Layout(c)
 	c04Munch(c)
 	c04DecodeWrites(c, c.P)
+	c.R.Floor("quoted-marked", c04QuotedMarked(c, c.P), 2, "tokens built from a decode buffer")
 	c.R.Rule("text-match-kind-guarded", "in the token converter (functions of pkg/sql/parser that receive a tokenizer token) the token's text is compared with keyword spellings - directly or through a helper - only where the token's Type has been positively established")
 	c.R.Floor("text-match-kind-guarded", c04TextMatchKindGuarded(c, c.P), 2, "text matches in the token converter")
 	c.R.Rule("decode-verbatim", "in the tokenizer's readers the rune or byte written to a value buffer inside a loop is never f(c) for a character c decoded in that loop and a function f of this module: content is kept as written, a mapping such as normalizeQuote may only serve the comparison with the delimiter")
